@@ -87,4 +87,18 @@ def tupleRoundTrip (t : ClassTable) : Bool := t.tupleParts == t.setstate
 def survives (ts : List ClassTable) (sites : List Site) (cf : String × String) : Bool :=
   (attrUniverse ts cf.1).contains cf.2 && (!dropped ts cf.1 cf.2 || rederived ts sites cf.1 cf.2)
 
+/-- `f` of class `c` (or of a base) is assigned by the resume path itself (not merely on first use afterwards) -/
+def touched (ts : List ClassTable) (sites : List Site) (c f : String) : Bool :=
+  sites.any fun s => s.attr == f && s.kind == "resume" && (lineage ts c).contains s.owner
+
+/-! A state is an association list attribute ↦ value (any value type).  Checkpointing keeps the attributes the
+`__getstate__` in force does not drop; resuming puts the pickled attributes back (`__dict__.update(state)`) and then
+lets the resume path overwrite the attributes it assigns, with whatever values it derives (`fresh`). -/
+def pickleState {α : Type} (ts : List ClassTable) (c : String) (s : List (String × α)) : List (String × α) :=
+  s.filter fun kv => !dropped ts c kv.1
+
+def resumeState {α : Type} (ts : List ClassTable) (sites : List Site) (c : String)
+    (fresh p : List (String × α)) : List (String × α) :=
+  (fresh.filter fun kv => touched ts sites c kv.1) ++ p
+
 end NessaiVerif.AccountsTables
